@@ -549,6 +549,34 @@ def check_dates_around_the_response_date(W, rec, tmpdir):
                 return
 
 
+def check_opaque_tag_texts(W, rec):
+    """An entity tag is opaque: its text may begin with the letters of the weakness marker ("W/abc" in quotes is a strong
+    tag named W/abc), hold a comma or a star.  The client that sends back exactly what it was sent gets 304; another
+    text does not match; If-Match admits the strong tag by its full text only."""
+    Response, create_environ = W["Response"], W["create_environ"]
+    for text in ("W/abc", "w/abc", "W/", "W/W/x", "a,b", "*", "abc"):
+        for weak in (False, True):
+            sent = ("W/" if weak else "") + '"' + text + '"'
+            others = ['"abc"' if text != "abc" else '"abd"', '"' + text[2:] + '"' if text[:2] in ("W/", "w/") and text[2:] not in ("", text) else '"zz"']
+            for method in ("GET", "HEAD"):
+                cells = [("If-None-Match", sent, 304), ("If-None-Match", 'W/"' + text + '"', 304), ("If-None-Match", '"' + text + '"', 304)]
+                cells += [("If-None-Match", o, 200) for o in others]
+                if not weak:
+                    cells += [("If-Match", sent, 200)] + [("If-Match", o, 412) for o in others]
+                for hname, hval, want in cells:
+                    r = Response(b"hello")
+                    r.headers["ETag"] = sent
+                    env = create_environ(method=method, headers={hname: hval})
+                    r.make_conditional(env)
+                    rec.case()
+                    rec.nontrivial(("opaque-tag", text, weak, method, hname, hval))
+                    rec.observe("opaque_tag_text_cells")
+                    if r.status_code != want:
+                        rec.violation(f"C11/conditional-got-{r.status_code}-expected-{want}", f"response ETag {sent}, request {hname}: {hval} ({method})",
+                                      {"family": "opaque-tag-texts", "etag": sent, hname: hval, "method": method}, monitor="validator-evaluator")
+                        return
+
+
 def check_shared_and_growing_bodies(W, rec, tmpdir):
     """Histories around the body.  (a) The application keeps one list of blocks and builds every response from it: a range
     request answered earlier leaves the list as it was, so later complete and partial answers are right.  (b) The length
@@ -786,6 +814,9 @@ def run(shard, rec, rng):
         if idx % 4 == 0:
             with rec.guard({"family": "shared-and-growing-bodies"}, "C11"):
                 check_shared_and_growing_bodies(W, rec, tmpdir)
+        if idx % 4 == 1:
+            with rec.guard({"family": "opaque-tag-texts"}, "C11"):
+                check_opaque_tag_texts(W, rec)
         if idx % 4 == 3:
             with rec.guard({"family": "generated-etags"}, "C11"):
                 check_concurrent_generated_etags(W, rec, rng)
